@@ -278,7 +278,9 @@ func c03prefilter(c *Ctx, fn *ssa.Function) {
 	if np == nil {
 		r.Fail("PATH", key+"/min-comparison/gate", c.Pos(fn.Pos()), "IsPodNonPreemptible(pod) is no longer consulted")
 	} else {
-		reach = an.Explore(fn, an.After(np), an.Facts{np.Value(): an.True}, func(in ssa.Instruction) bool { return in == ssa.Instruction(le2) })
+		// from behind the main comparison (passed): whatever comes first, a non-preemptible pod cannot leave with a
+		// success or with the ancestor walk's verdict before the min comparison
+		reach = an.Explore(fn, an.After(le1), an.Facts{np.Value(): an.True, extract(le1.Value(), 0): an.True}, func(in ssa.Instruction) bool { return in == ssa.Instruction(le2) })
 		bad = success(reach)
 		r.Check(len(bad) == 0, "PATH", key+"/min-comparison/always-evaluated", c.InstrPos(np), "a non-preemptible pod is always compared against min", "for a non-preemptible pod a success exit is reachable without the min comparison: "+strings.Join(bad, ","))
 		reach = an.Explore(fn, an.After(le2), an.Facts{extract(le2.Value(), 0): an.False}, nil)
